@@ -40,6 +40,10 @@ func checkC14(c *Check) {
 	ruleRawFlagPairing(c, p, "R14.7")
 	ruleBuffersRefetched(c, p, "R14.8", "Writer", "CompressingReader")
 	ruleContentHashDiscipline(c, p, "R14.9")
+	ruleFullBlockReads(c, p, "R14.12")
+	c.RuleDoc["R14.12"] = "the write side fills whole blocks from the source (io.ReadFull): block boundaries do not follow the source's read sizes"
+	c.RuleDoc["R14.11"] = "a compression worker releases its source buffer only after the ordering goroutine has written the block (= the worker obligations of R08.4): the bytes written do not depend on who reuses the pool buffer meanwhile"
+	c.only(func(k string) bool { return strings.HasPrefix(k, "Writer.write.worker#") }, func() { ruleReleaseAfterUse(c, p, "R14.11") })
 	c.RuleDoc["R14.10"] = "ownership hand-off (= R02.5): a buffer given to a compression goroutine is replaced before the Writer writes into it again, so the block's bytes do not depend on the schedule"
 	ruleHandOff(c, p, "R14.10")
 	c.RuleDoc["R14.9"] = "content checksum fed in stream order only"
@@ -466,6 +470,8 @@ func checkC16(c *Check) {
 	// underflow error is raised only for offsets that really reach before the dictionary
 	c.RuleDoc["R16.6"] = "assembly decoder: dictionary accesses in bounds, dictionary error exit justified"
 	runAsm(c, p, []asmCase{{false, false}}, map[string]string{"exit": "R16.6", "access": "R16.6"})
+	c.RuleDoc["R16.7"] = "portable decoder: the dictionary branch rejects only matches that reach before the dictionary (the explicit error exits entail a format violation; = the portable obligations of R04/R12)"
+	portableDecoderRules(c, "R16.7")
 }
 
 func ruleDependentSequential(c *Check, p *Program, rule string) {
@@ -539,7 +545,7 @@ func ruleDictProvenance(c *Check, p *Program, rule string) {
 		return
 	}
 	n := 0
-	for _, ci := range callsIn(rr) {
+	for _, ci := range callsInDeep(rr) {
 		if calleeIs(ci, pkgStream, "FrameDataBlock.Uncompress") {
 			n++
 			c.Sites++
@@ -550,17 +556,30 @@ func ruleDictProvenance(c *Check, p *Program, rule string) {
 	if n == 0 {
 		c.Fail(rule, "Reader.read#dict-argument", p.Pos(rr.Pos()), "sequential decode call resolved", "no Uncompress call in Reader.read")
 	}
+	// the destination and dictionary parameters, by name (the body may live in a helper with another parameter list)
+	var pDst, pDict ssa.Value
+	for _, prm := range un.Params {
+		switch prm.Name() {
+		case "dst":
+			pDst = prm
+		case "dict":
+			pDict = prm
+		}
+	}
+	if (pDst == nil || pDict == nil) && len(un.Params) >= 4 {
+		pDst, pDict = un.Params[2], un.Params[3]
+	}
 	for _, ci := range callsIn(un) {
 		if calleeIs(ci, pkgBlock, "UncompressBlock") {
 			c.Sites++
-			ok := len(un.Params) >= 4 && ci.Common().Args[2] == un.Params[3] && ci.Common().Args[0] != nil && loadField(ci.Common().Args[0]) == "FrameDataBlock.data" && ci.Common().Args[1] == un.Params[2]
+			ok := pDst != nil && ci.Common().Args[2] == pDict && ci.Common().Args[0] != nil && loadField(ci.Common().Args[0]) == "FrameDataBlock.data" && ci.Common().Args[1] == pDst
 			c.Cond(ok, rule, "Uncompress#dict-forwarded", p.InstrPos(ci), "Uncompress forwards (block bytes, destination, dictionary) unchanged to the block decoder", "UncompressBlock(b.data, dst, dict)", "arguments of UncompressBlock are not (b.data, dst, dict)")
 		}
 	}
 	// raw blocks: copied from b.data into dst
 	okRaw := false
 	allInstrs(un, func(in ssa.Instruction) {
-		if cc, ok := isBuiltinCall(in, "copy"); ok && len(un.Params) >= 3 && cc.Args[0] == un.Params[2] && loadField(cc.Args[1]) == "FrameDataBlock.data" {
+		if cc, ok := isBuiltinCall(in, "copy"); ok && pDst != nil && cc.Args[0] == pDst && loadField(cc.Args[1]) == "FrameDataBlock.data" {
 			for _, a := range atomsOfBlock(in.Block()) {
 				if a.Kind == "call" && strings.HasSuffix(a.Name, "Uncompressed") && a.Val {
 					okRaw = true
@@ -660,6 +679,27 @@ func checkC18(c *Check) {
 			closeW = ci
 		}
 	}
+	// the trailer call may sit in a helper of Read: closeW is then the call of the helper in Read,
+	// closeWInner the CloseW call itself
+	closeWInner := closeW
+	if closeW == nil {
+		for _, ci := range callsIn(fn) {
+			f := staticCallee(ci)
+			if f == nil || !inModule(f) || f.Pkg != fn.Pkg {
+				continue
+			}
+			if _, isCall := ci.(*ssa.Call); !isCall {
+				continue
+			}
+			for _, g := range deepFuncs(f, 1) {
+				for _, cj := range callsIn(g) {
+					if calleeIs(cj, pkgStream, "Frame.CloseW") {
+						closeW, closeWInner = ci, cj
+					}
+				}
+			}
+		}
+	}
 	if rf == nil || closeW == nil {
 		c.Fail("R18.1", "CompressingReader.Read#anchors", p.Pos(fn.Pos()), "source read and trailer call resolved", fmt.Sprintf("io.ReadFull found: %v; CloseW found: %v", rf != nil, closeW != nil))
 		return
@@ -748,7 +788,13 @@ func checkC18(c *Check) {
 				walk(s, 0)
 			}
 		}
-		walk(closeW.Block(), idxOf(closeW)+1)
+		walk(closeWInner.Block(), idxOf(closeWInner)+1)
+		if miss && closeWInner != closeW {
+			// the helper returns without the transition: the caller may perform it after the call
+			miss = false
+			seen = map[*ssa.BasicBlock]bool{}
+			walk(closeW.Block(), idxOf(closeW)+1)
+		}
 	}
 	sets := fieldValueSets(fn, "CompressingReader.state", 8)
 	sAt := sets[closeW.Block()]
@@ -865,6 +911,8 @@ func checkC18(c *Check) {
 		c.Cond(okInit && hdr, "R18.6", "CompressingReader.init#frame", p.Pos(in.Pos()), "the compressing reader builds a sequential, non-legacy frame and writes the header into its output adapter before any block", "InitW(out, 1, false); Descriptor.Write", fmt.Sprintf("InitW(…,1,false): %v; header written: %v", okInit, hdr))
 	}
 	c.RuleDoc["R18.7"] = "the output adapter is rewound before every error-free return that follows reset(p)"
+	ruleSizeOptionArms(c, p, "R18.12")
+	c.RuleDoc["R18.12"] = "SizeOption sets flag and size unconditionally for the compressing reader as for the Writer"
 	ruleAdapterAccounting(c, p, "R18.11")
 	c.RuleDoc["R18.11"] = "byte accounting of the output adapter (bounds prover): Write adds exactly len(p) pending bytes, reset consumes exactly len(out) or none, clear leaves none; positions stay inside their slices"
 	ruleNoEmptyBlock(c, p, "R18.10", "CompressingReader")
